@@ -3,6 +3,7 @@
 package c11
 
 import (
+	"bytes"
 	"crypto"
 	"crypto/rsa"
 	"crypto/x509"
@@ -660,6 +661,28 @@ func TestC11SeqKeyPair(t *testing.T) {
 				vlib.Report(t, "C11/keypair/sign/"+s.Name()+"/private-key-changed-by-decoding-into-its-public-key",
 					fmt.Sprintf("after "+how+" %s the private key observes\n %.200s\nexpected\n %.200s", target, got, want))
 				return
+			}
+			// the other direction: another private key decoded into sk — public-key objects handed out earlier
+			// (by key generation and by Public()) keep their value
+			if su, ok := any(skA).(unm); ok {
+				pkEarly, pkEarly2 := any(nil), any(nil)
+				pkA2, skA3 := s.DeriveKey(seedA)
+				pkEarly, pkEarly2 = pkA2, skA3.Public()
+				wantPk := mb(pkA2.MarshalBinary())
+				sigA := s.Sign(skA3, msg, nil)
+				_, skB2 := s.DeriveKey(seedB)
+				if err := any(skA3).(unm).UnmarshalBinary(mb(skB2.MarshalBinary())); err != nil {
+					t.Fatalf("harness: valid private key refused: %v", err)
+				}
+				_ = su
+				for i, pe := range []any{pkEarly, pkEarly2} {
+					pkE := pe.(sign.PublicKey)
+					if got := mb(pkE.MarshalBinary()); !bytes.Equal(got, wantPk) || !s.Verify(pkE, msg, sigA, nil) {
+						vlib.Report(t, "C11/keypair/sign/"+s.Name()+"/public-key-changed-by-decoding-into-its-private-key",
+							fmt.Sprintf("seedA=%x seedB=%x: public key object %d (0 = from DeriveKey, 1 = from Public()) obtained before sk.UnmarshalBinary(other key): bytes unchanged=%v, still verifies A's signature=%v", seedA, seedB, i, bytes.Equal(got, wantPk), s.Verify(pkE, msg, sigA, nil)))
+						return
+					}
+				}
 			}
 			vlib.NonTrivial(sub, "decode-into-"+target, seedA, seedB, msg)
 			vlib.Sample(sub, target, fmt.Sprintf("%s: decode pk(seed %x) into %s of seed %x, then sign", s.Name(), seedB[:4], target, seedA[:4]))
